@@ -466,8 +466,9 @@ fn context_of(hist: &[Op]) -> String {
                     ctx = "consume";
                 }
             }
+            _ if false => {}
             Op::Take(_, _, cactus_mc::ops::TakeMode::Elide) => {
-                if ctx == "base" {
+                if ctx == "base" || ctx == "consume" {
                     ctx = "elide";
                 }
             }
